@@ -110,12 +110,19 @@ def sel_labels(y, rows):
     return None if y is None else {"t": y["t"], "v": [y["v"][r] for r in rows]}
 
 
-def make_world(rng, cat_names, num_names, task=None):
-    """One data set over the given schema: a pool of rows, its labels, its column statistics, a training prefix."""
+BOUNDARIES = ["ntrain1", "one_class", "seen_once", "ntrain1+one_cat"]
+
+
+def make_world(rng, cat_names, num_names, task=None, boundary=None):
+    """One data set over the given schema: a pool of rows, its labels, its column statistics, a training prefix.
+    boundary: a deliberately hit edge of the quantified dimensions -- a single training row, all training rows of one
+    class (binary: all 0 / all 1; multiclass: only the top class; regression: a constant), a category seen once."""
     task = task or rng.pick(["regression", "binary", "multiclass", "multiclass"])
     k = rng.pick([3, 4]) if task == "multiclass" else 2
     P = rng.randint(3, 9)                     # pool rows; the training frame is a prefix (or all) of the pool
     ntrain = P if rng.chance(0.5) else rng.randint(2, P)
+    if boundary and boundary.startswith("ntrain1"):
+        ntrain = 1
     stats, cat_cols = {}, []
     for name in cat_names:
         m = rng.randint(1, 4)
@@ -137,7 +144,13 @@ def make_world(rng, cat_names, num_names, task=None):
         if rng.chance(0.15):
             counts = [c + rng.randint(0, 3) for c in counts]  # statistics of a larger table than the frame
             counts.sort(reverse=True)
-        cat_cols.append([relabel[v] if v >= 0 else -1 for v in raw])
+        col = [relabel[v] if v >= 0 else -1 for v in raw]
+        if boundary == "seen_once" and counts[-1] != 1:
+            counts.append(1)                    # a category that occurs exactly once, carried by one pool row
+            col[rng.randrange(1, P)] = len(counts) - 1
+            if all(v < 0 for v in col[:ntrain]):
+                col[0] = 0
+        cat_cols.append(col)
         stats[name] = counts
     num_cols = []
     for name in num_names:
@@ -150,16 +163,30 @@ def make_world(rng, cat_names, num_names, task=None):
         ypool["v"][rng.randrange(ntrain)] = k - 1
     if task == "regression" and all(v is None for v in ypool["v"][:ntrain]):
         ypool["v"][0] = q(1)
-    return dict(task=task, k=k, P=P, ntrain=ntrain, pool=pool, ypool=ypool, stats=stats, prev_rows=None)
+    if boundary == "one_class":
+        if task == "multiclass":
+            const = k - 1
+        elif task == "binary":
+            const = rng.randrange(2) if ypool["t"] == "int" else q(rng.randrange(2))
+        else:
+            const = q(Fr(rng.randint(-32, 32), 4))
+        for r_ in range(ntrain):
+            ypool["v"][r_] = const
+    return dict(task=task, k=k, P=P, ntrain=ntrain, pool=pool, ypool=ypool, stats=stats, prev_rows=None,
+                boundary=boundary)
 
 
 LABEL_KINDS = ["none", "own", "subset", "zeros", "bigint", "float"]
+# state_dict round trips: into a fresh instance (the live dict / a deep copy / torch.save bytes), or into the SAME
+# object, t.load_state_dict(t.state_dict()), once or twice in a row
+ROUNDTRIP_KINDS = ["direct", "deepcopy", "torch", "self", "self", "self2"]
 
 
 def fit_step(rng, w, malformed=False):
     rows = list(range(w["ntrain"]))
     y = None if malformed else sel_labels(w["ypool"], rows)
-    return {"op": "fit", "frame": frame_of(w["pool"], rows, y), "stats": w["stats"], "task": w["task"]}
+    return {"op": "fit", "frame": frame_of(w["pool"], rows, y), "stats": w["stats"], "task": w["task"],
+            "boundary": w.get("boundary")}
 
 
 def unfitted_step(rng, w):
@@ -225,16 +252,40 @@ def gen_schema(rng, lookalike=0.0):
 
 def gen_single(rng):
     """one transform instance: [call before fit]; fit; keys; (call | round trip)*"""
-    w = make_world(rng, *gen_schema(rng, lookalike=0.08))
+    boundary = rng.pick(BOUNDARIES) if rng.chance(0.25) else None
+    cats, nums = gen_schema(rng, lookalike=0.08)
+    if boundary == "ntrain1+one_cat":
+        cats = cats[:1]                         # exactly one categorical column, one training row
+    w = make_world(rng, cats, nums, boundary=boundary)
     steps = []
     if rng.chance(0.12):
         steps.append(unfitted_step(rng, w))
     steps.append(fit_step(rng, w, malformed=rng.chance(0.02)))
     steps.append({"op": "keys"})
+    first = None
     for _ in range(rng.randint(2, 5)):
-        if rng.chance(0.25):
-            steps.append({"op": "roundtrip", "how": rng.pick(["direct", "deepcopy", "torch"])})
-        steps.append(call_step(rng, w))
+        r = rng.random()
+        if r < 0.22:
+            steps.append({"op": "roundtrip", "how": rng.pick(ROUNDTRIP_KINDS)})
+        elif r < 0.30 and first is not None:
+            # s = t.state_dict(); t(frame); t.load_state_dict(s)  -- source and destination are the same object
+            steps.append({"op": "save", "how": "direct"})
+            steps.append(call_step(rng, w, unseen_rate=0.0))
+            steps.append({"op": "load", "into": "self"})
+            steps.append(dict(first, rows="repeat"))
+            steps.append({"op": "keys"})
+        st = call_step(rng, w)
+        if boundary and rng.chance(0.5) and st.get("why") is None:
+            rows = [rng.randrange(w["P"])]      # single-row frame
+            for col in w["pool"]["cat"]["cols"]:
+                if col[rows[0]] < 0:
+                    rows = None
+                    break
+            if rows:
+                st = {"op": "call", "frame": frame_of(w["pool"], rows, None), "rows": "single", "labels": "none"}
+        steps.append(st)
+        if first is None and st.get("why") is None:
+            first = st
     if rng.chance(0.3):
         steps.append({"op": "keys"})
     return {"task": w["task"], "k": w["k"], "steps": steps}
@@ -275,7 +326,7 @@ def gen_multi(rng):
             if r < 0.2 and j in saved:
                 add(j, {"op": "load"})          # fresh instance <- the state_dict saved before the other fits
             elif r < 0.35:
-                add(j, {"op": "roundtrip", "how": rng.pick(["direct", "deepcopy", "torch"])})
+                add(j, {"op": "roundtrip", "how": rng.pick(ROUNDTRIP_KINDS)})
             elif r < 0.45:
                 add(j, {"op": "keys"})
             elif r < 0.55 and j not in saved:
@@ -460,7 +511,11 @@ def run(case):
                 out.append({"ok": False, "exc": C.exc_name(ex)})
         elif st["op"] == "roundtrip":
             try:
-                ts[i] = load_state(dump_state(t, st["how"]))
+                if st["how"] in ("self", "self2"):
+                    for _ in range(2 if st["how"] == "self2" else 1):
+                        t.load_state_dict(t.state_dict())      # source and destination are the same object
+                else:
+                    ts[i] = load_state(dump_state(t, st["how"]))
                 out.append({"ok": True})
             except Exception as ex:
                 out.append({"ok": False, "exc": C.exc_name(ex)})
@@ -472,7 +527,13 @@ def run(case):
                 out.append({"ok": False, "exc": C.exc_name(ex)})
         elif st["op"] == "load":
             try:
-                ts[i] = load_state(saved[i])
+                if st.get("into") == "self":
+                    blob = saved[i]
+                    if isinstance(blob, bytes):
+                        blob = torch.load(io.BytesIO(blob), weights_only=False)
+                    t.load_state_dict(blob)                    # into the object the state was taken from
+                else:
+                    ts[i] = load_state(saved[i])
                 out.append({"ok": True})
             except Exception as ex:
                 out.append({"ok": False, "exc": C.exc_name(ex)})
@@ -769,7 +830,11 @@ def stats(cases, obss):
          "history_len": {}, "instances": {}, "calls_after_another_instance_was_fitted": 0,
          "repeated_frame_calls": 0, "loads_of_saved_state": 0, "name_clash_fits": 0,
          "lookalike_names_without_clash": 0, "same_shape_other_data_after_call": 0,
-         "same_shape_other_data_without_numerical": 0}
+         "same_shape_other_data_without_numerical": 0, "loads_into_the_same_object": 0,
+         "fits_with_one_training_row": 0, "fits_with_one_categorical_column_and_one_row": 0,
+         "fits_with_a_single_label_value": 0, "fits_multiclass_with_only_the_top_class": 0,
+         "fits_with_a_category_seen_once": 0, "fits_with_missing_training_entries": 0,
+         "calls_on_a_category_seen_once": 0}
     for c, o in zip(cases, obss):
         if c is None:
             continue
@@ -780,6 +845,7 @@ def stats(cases, obss):
         d["instances"][ni] = d["instances"].get(ni, 0) + 1
         fit_order = []
         last_shape = {}
+        cur_stats = {}
         for st, ob in zip(c["steps"], (o or {}).get("steps", [])):
             inst = st.get("inst", 0)
             if st["op"] == "fit":
@@ -789,6 +855,16 @@ def stats(cases, obss):
                 d["ncat"][len(f["cat"]["names"])] = d["ncat"].get(len(f["cat"]["names"]), 0) + 1
                 d["fit_errors"] += int(not ob["ok"])
                 fit_order.append(inst)
+                cur_stats[inst] = st["stats"]
+                ntr = len(f["cat"]["cols"][0])
+                d["fits_with_one_training_row"] += int(ntr == 1)
+                d["fits_with_one_categorical_column_and_one_row"] += int(ntr == 1 and len(f["cat"]["names"]) == 1)
+                if f["y"] is not None:
+                    d["fits_with_a_single_label_value"] += int(ntr > 1 and len({json.dumps(v) for v in f["y"]["v"]}) == 1)
+                    d["fits_multiclass_with_only_the_top_class"] += int(
+                        f["y"]["t"] == "int" and len(set(f["y"]["v"])) == 1 and f["y"]["v"][0] > 1)
+                d["fits_with_a_category_seen_once"] += int(any(1 in cs_ for cs_ in st["stats"].values()))
+                d["fits_with_missing_training_entries"] += int(any(v < 0 for c_ in f["cat"]["cols"] for v in c_))
                 gen = {f"{cn}_{i}" for cn in f["cat"]["names"] for i in range(4)}
                 look = [nm for nm in (f["num"]["names"] if f["num"] else []) if nm in gen]
                 if look:
@@ -803,6 +879,7 @@ def stats(cases, obss):
                 d["roundtrips"][st["how"]] = d["roundtrips"].get(st["how"], 0) + 1
             elif st["op"] == "load":
                 d["loads_of_saved_state"] += 1
+                d["loads_into_the_same_object"] += int(st.get("into") == "self")
             elif st["op"] == "call":
                 d["calls"] += 1
                 d["call_errors"] += int(not ob["ok"])
@@ -813,6 +890,10 @@ def stats(cases, obss):
                 d["calls_with_missing"] += int(any(v < 0 for col in st["frame"]["cat"]["cols"] for v in col))
                 d["calls_after_another_instance_was_fitted"] += int(inst in fit_order and fit_order[-1] != inst)
                 d["repeated_frame_calls"] += int(st.get("rows") == "repeat")
+                if cur_stats.get(inst):
+                    d["calls_on_a_category_seen_once"] += int(any(
+                        0 <= v < len(cur_stats[inst][nm]) and cur_stats[inst][nm][v] == 1
+                        for nm, col in zip(st["frame"]["cat"]["names"], st["frame"]["cat"]["cols"]) for v in col))
                 shape = (inst, len(st["frame"]["cat"]["cols"][0]), st["frame"]["num"] is None)
                 if ob["ok"] and last_shape.get(inst) == shape and st.get("rows") not in ("same", "repeat"):
                     d["same_shape_other_data_after_call"] += 1
@@ -916,7 +997,7 @@ def sanity(cases, obss):
             probs.append(f"row selection '{k}' never drawn")
     if d["nnum"].get(0, 0) == 0 or sum(v for k_, v in d["nnum"].items() if k_ > 0) == 0:
         probs.append("frames with AND without numerical columns are not both drawn")
-    for k in ("direct", "deepcopy", "torch"):
+    for k in ("direct", "deepcopy", "torch", "self", "self2"):
         if d["roundtrips"].get(k, 0) == 0:
             probs.append(f"state_dict round trip '{k}' never drawn")
     if d["call_errors"] > 0.4 * d["calls"]:
@@ -925,7 +1006,11 @@ def sanity(cases, obss):
         probs.append(f"{d['fit_errors']} fits raise")
     for k in ("unfitted_calls", "unseen_calls", "calls_with_missing", "calls_after_another_instance_was_fitted",
               "repeated_frame_calls", "loads_of_saved_state", "name_clash_fits", "lookalike_names_without_clash",
-              "same_shape_other_data_after_call", "same_shape_other_data_without_numerical"):
+              "same_shape_other_data_after_call", "same_shape_other_data_without_numerical",
+              "loads_into_the_same_object", "fits_with_one_training_row",
+              "fits_with_one_categorical_column_and_one_row", "fits_with_a_single_label_value",
+              "fits_multiclass_with_only_the_top_class", "fits_with_a_category_seen_once",
+              "fits_with_missing_training_entries", "calls_on_a_category_seen_once"):
         if d[k] == 0:
             probs.append(f"{k} = 0")
     if sum(v for k_, v in d["instances"].items() if k_ >= 2) == 0:
